@@ -41,7 +41,12 @@ def _run_variant(args):
     mid, prop, edits, kind, root = args
     try:
         base = Project(root)
-        overlay = _apply(base.files, edits)
+        if isinstance(edits, dict):
+            from .corpus import apply_patch
+
+            overlay = apply_patch(base.files, edits["patch"])
+        else:
+            overlay = _apply(base.files, edits)
         if overlay is None:
             return mid, prop, kind, "not-applicable", []
         for rel, txt in overlay.items():
@@ -68,7 +73,7 @@ def catalogue():
     return mutants.MUTANTS
 
 
-def run_for(prop: Optional[str], jobs: int = 16, strict: bool = True) -> dict:
+def run_for(prop: Optional[str], jobs: int = 16, strict: bool = True, corpora: bool = True) -> dict:
     """run every catalogue entry that names `prop` (or all when prop is None)"""
     root = str(repo_root())
     work = []
@@ -76,6 +81,12 @@ def run_for(prop: Optional[str], jobs: int = 16, strict: bool = True) -> dict:
         for pr in m["props"]:
             if prop is None or pr == prop:
                 work.append((m["id"], pr, m["edits"], m["kind"], root))
+    if corpora:
+        from .corpus import corpus_variants
+
+        for m in corpus_variants(prop):
+            for pr in m["props"]:
+                work.append((m["id"], pr, {"patch": m["patch"]}, m["kind"], root))
     t0 = time.time()
     results = []
     if work:
@@ -166,15 +177,16 @@ def main(argv=None):
     ap = argparse.ArgumentParser()
     ap.add_argument("prop", nargs="?", default=None)
     ap.add_argument("--jobs", type=int, default=16)
+    ap.add_argument("--no-corpora", action="store_true")
     a = ap.parse_args(argv)
-    s = run_for(a.prop.upper() if a.prop else None, a.jobs, strict=False)
+    s = run_for(a.prop.upper() if a.prop else None, a.jobs, strict=False, corpora=not a.no_corpora)
     for d in s["details"]:
         flag = ""
         if d["kind"] == "fault" and d["outcome"] != "reported" and d["outcome"] != "not-applicable":
             flag = "  <-- MISSED"
         if d["kind"] == "benign" and d["outcome"] != "silent" and d["outcome"] != "not-applicable":
             flag = "  <-- FALSE ALARM"
-        print(f"{d['id']:32s} {d['property']} {d['kind']:6s} {d['outcome']:16s} {d['reported'][:1]}{flag}")
+        print(f"{d['id']:40s} {d['property']} {d['kind']:6s} {d['outcome']:16s} {d['reported'][:1]}{flag}")
     print({k: v for k, v in s.items() if k != "details"})
     return 0 if not s["missed"] and not s["false_alarms"] else 2
 
